@@ -212,26 +212,17 @@ def x_generator(rows: list, extra: list, k: int, w: int):
             yield (row + [7] * (w - len(row)))[:w]
 
 
-def x_iter_next(items: list, d: int, k: int):
-    # iter() / next() over sequences (ListBox._keypress_max_left: next(iter(positions))): first elements, default,
-    # StopIteration, exhaustion, a live list iterator, iter(it) is it
-    it = iter(items)
-    try:
-        a = next(it)
-    except StopIteration:
-        a = -100
-    b = next(it, d)
-    c = next(iter(reversed(items)), d)
-    r = iter(range(k, 3))
-    e = next(r, d)
-    f = next(iter(r), d)
-    t = iter((d, k))
-    g = (next(t), next(t), next(t, 7), next(t, 8))
-    items.append(d)
-    h = next(it, -5)
-    try:
-        z = next(iter(()))
-    except StopIteration:
-        z = -7
-    return (a, b, c, e, f, g, h, z)
-
+def x_splice_rows(rows: list, y: int, v: int):
+    # a list display that splices rows of a nested list around a freshly built row (Edit.get_line_translation:
+    # [*trans[:y], *[shift_line(trans[y], n)], *trans[y + 1:]]); the rows of the result are then read and measured
+    if 0 <= y < len(rows):
+        new = [*rows[:y], *[[v, *rows[y]]], *rows[y + 1 :]]
+        return (len(new), [len(r) for r in new], new[y][0], new[y][1:], new[y - 1] if y > 0 else None, new[y + 1] if y + 1 < len(new) else None, new)
+    return None
+def x_generator_same_list(a: int, n: int, w: int):
+    # the SAME list object yielded once per round (SolidCanvas.content / BlankCanvas.content: one `line` for every row);
+    # pyvc yields it by value and keeps it readable (seqs.YieldedRef)
+    line = [(a, [a] * w)]
+    for _ in range(n):
+        yield line
+    yield line + [(w, [])]
